@@ -1,8 +1,8 @@
 import MxV.Model.MsimpleTheory
 /-! # C19 — misuse is reported with the documented exception types, silently otherwise
 Model side: on `Tame` templates every rejection of an operation without an explicit `forward`
-index is one of the documented kinds. (`forward` outside the same-name leaves raises IndexError in
-the code — an open finding — and the model says so: `Err.indexError`.) The model functions are total
+index is one of the documented kinds (and since the repair `fix: add_child(child, forward=i) with an
+index outside the same-name leaves raises 'Wrong forwarding'` also with one). The model functions are total
 structural recursions, which is the modelled part of "never hangs". Output silence and the exception
 classes of the real code are checked by the correspondence run (captured stdout/stderr, exception
 enum). Partial: `Wild` types (open findings: NotImplementedError, IndexError, TypeError). -/
